@@ -863,6 +863,15 @@ package xmpp
 // ---------------------------------------------------------------------------
 // C08: each send is one whole Write (the remaining senders and the traffic logger)
 //
+// Reading through the traffic logger hands the caller exactly what the socket delivered - also when the log file
+// cannot be written: bytes taken from the socket are never dropped.
+//@ func (*xmpp.streamLogger).Read(sl, p) (n, err)
+//@   requires sl != nil && sl.socket != nil && sl.logFile != nil
+//@   ensures [C05.logger.read]     count(ReaderRead) == old(count(ReaderRead)) + 1 && last(ReaderRead, 0) == sl.socket && n == last(ReaderRead, 1)
+//@   ensures [C05.logger.read.err] !last(ReaderRead, 3) ==> err != nil
+//@   elems p
+//@   emits ReaderRead, Write
+//
 //@ func (*xmpp.streamLogger).Write(sl, p) (n, err)
 //@   requires sl != nil && sl.socket != nil && sl.logFile != nil
 //@   ensures [C08.logger.socket] count(Write) >= old(count(Write)) + 2 && arg(Write, old(count(Write)) + 1, 0) == sl.socket && arg(Write, old(count(Write)) + 1, 1) == bytes(p)
